@@ -601,4 +601,112 @@ theorem getString_of_skipStringIs_err (enc : Bool) (want : Bytes) (d : Dec) (e :
           | error e1 => rw [he] at h; simp only at h ⊢; injection h with h; rw [h]
           | ok d2 => rw [he] at h; cases h
 
+/-! ### the per-round `ensureData(1)` of the raw and the skipping receiver (fix e91c289) -/
+
+theorem ensureAux_err_class (n : Nat) : ∀ (src : List OutFrame) (buf : Bytes) (isEOM : Bool) (e : Err),
+    ensureAux n buf isEOM src = .error e → e = .eof := by
+  intro src
+  induction src with
+  | nil =>
+    intro buf isEOM e h
+    unfold ensureAux at h
+    split at h
+    · cases h
+    · injection h with h; exact h.symm
+  | cons f rest ih =>
+    intro buf isEOM e h
+    obtain ⟨p, e'⟩ := f
+    unfold ensureAux at h
+    split at h
+    · cases h
+    · exact ih _ _ _ h
+
+/-- `ensureData` fails only by running out: of the connection (`eof`) or of the message (`eom`) -/
+theorem ensure_err_class (d : Dec) (n : Nat) (e : Err) (h : d.ensure n = .error e) : e = .eof ∨ e = .eom := by
+  unfold Dec.ensure at h
+  cases h1 : ensureAux n d.buf d.isEOM d.src with
+  | error e1 =>
+    rw [h1] at h; simp only at h; injection h with h; subst h
+    exact .inl (ensureAux_err_class n _ _ _ _ h1)
+  | ok d1 =>
+    rw [h1] at h; simp only at h
+    split at h
+    · injection h with h; exact .inr h.symm
+    · cases h
+
+theorem ensureAux_total (n : Nat) : ∀ (src : List OutFrame) (buf : Bytes) (isEOM : Bool) (d1 : Dec),
+    ensureAux n buf isEOM src = .ok d1 → d1.total = buf.length + (src.map (·.1.length)).sum := by
+  intro src
+  induction src with
+  | nil =>
+    intro buf isEOM d1 h
+    unfold ensureAux at h
+    split at h
+    · injection h with h; subst h; simp [Dec.total]
+    · cases h
+  | cons f rest ih =>
+    intro buf isEOM d1 h
+    obtain ⟨p, e'⟩ := f
+    unfold ensureAux at h
+    split at h
+    · injection h with h; subst h; simp [Dec.total]
+    · rw [ih _ _ _ h]; simp [List.length_append]; omega
+
+theorem ensure_total (d d1 : Dec) (n : Nat) (h : d.ensure n = .ok d1) : d1.total = d.total := by
+  unfold Dec.ensure at h
+  cases h1 : ensureAux n d.buf d.isEOM d.src with
+  | error e1 => rw [h1] at h; cases h
+  | ok d2 =>
+    rw [h1] at h; simp only at h
+    split at h
+    · cases h
+    · injection h with h; subst h
+      rw [ensureAux_total n _ _ _ _ h1]; rfl
+
+theorem ensure_idem (d d1 : Dec) (h : d.ensure 1 = .ok d1) : d1.ensure 1 = .ok d1 := by
+  have hl := ensure_ok_len d d1 1 h
+  have hg : lenGe d1.buf 1 = true := (lenGe_iff _ _).mpr hl
+  unfold Dec.ensure
+  rw [ensureAux_done 1 d1.buf d1.isEOM d1.src (by simp [hg])]
+  simp [hg, Dec.eta]
+
+/-- after a successful `ensureData(1)`, reading a string proceeds exactly as it would have without it -/
+theorem getString_after_ensure (enc : Bool) (d d1 : Dec) (h : d.ensure 1 = .ok d1) :
+    d1.getString enc = d.getString enc := by
+  unfold Dec.getString
+  cases enc with
+  | true =>
+    simp only [if_true]
+    have : d1.getInt32 = d.getInt32 := by
+      unfold Dec.getInt32 Dec.getInt
+      rw [ensure_after d d1 8 (by omega) h]
+    rw [this]
+  | false =>
+    simp only [Bool.false_eq_true, if_false]
+    rw [ensure_total d d1 1 h]
+    have : getCStr (d.total + 1) d1 [] = getCStr (d.total + 1) d [] := by
+      conv => lhs; unfold getCStr
+      conv => rhs; unfold getCStr
+      rw [ensure_idem d d1 h, h]
+    rw [this]
+
+/-- when `ensureData(1)` fails, reading a string fails the same way — except in plaintext mode at the end
+    of the message, where GetString returns the empty string -/
+theorem getString_of_ensure_err (enc : Bool) (d : Dec) (e : Err) (h : d.ensure 1 = .error e) :
+    d.getString enc = .error e ∨ (e = .eom ∧ ∃ d', d.getString enc = .ok ([], d')) := by
+  unfold Dec.getString
+  cases enc with
+  | true =>
+    simp only [if_true]
+    left
+    unfold Dec.getInt32 Dec.getInt
+    rw [ensure_err d e 8 (by omega) h]
+  | false =>
+    simp only [Bool.false_eq_true, if_false]
+    unfold getCStr
+    rw [h]
+    rcases ensure_err_class d 1 e h with he | he
+    · subst he; left; rfl
+    · subst he; right; exact ⟨rfl, _, rfl⟩
+
 end Cedar
